@@ -66,6 +66,17 @@ class C13(core.Check):
               ("resp", True, b"HTTP/1.1 200 OK\r\nContent-Length: 5\r\n\r\nHTTP/1.1 204 No\r\n\r\n", (3, 20), False, None),
               ("resp", False, b"HTTP/1.1 200 OK\r\nContent-Length: 5\r\n\r\nab", (), True, None),
               ("resp", False, b"", (), True, None)]
+        ch = b"HTTP/1.1 200 OK\r\nTransfer-Encoding: chunked\r\n\r\n3\r\nabc\r\n4\r\ndefg\r\n2\r\nhi\r\n0\r\n\r\n"
+        for cutset in ((50,), (52,), (57,), (61,), (20, 52), (57, 70), tuple(range(1, len(ch)))):    # close before the last parse
+            cs.append(("resp", False, ch, cutset, True, "cf"))
+        cs.append(("resp", False, ch[:61], (52,), True, "cf"))        # stream stops exactly after a chunk
+        cs.append(("resp", False, ch[:57], (52,), True, "cf"))
+        cs.append(("resp", False, r1, (30, 60), True, "cf"))
+        for d in (b"HTTP/1.1 200 OK\r\nContent-Length: 2\r\n\r\nhi", b"HTTP/1.0 200 OK\r\n\r\nclose delimited",
+                  b"HTTP/1.1 200 OK\r\nTransfer-Encoding: chunked\r\n\r\n2\r\nhi\r\n0\r\n\r\n", b"HTTP/1.1 204 N\r\n\r\n", b"", b"HTTP/1.1 200 OK\r\nContent-Length: 5\r\n\r\nhi"):
+            for cutset in ((), (5,), (len(d) - 1,) if len(d) > 1 else ()):
+                for same in (True, False):
+                    cs.append(("clid", d, tuple(c for c in cutset if 0 < c < len(d)), same))
         for cl in (b"2\x1c", b"\xa02", b"+2", b"0_2", b"2_", b"-0", b" 2 ", b"\x852", b"2\x1f", b"", b"\xb2"):    # int() on Content-Length
             cs.append(("req", b"POST /c HTTP/1.1\r\ncontent-length: " + cl + b"\r\n\r\n:0GET / HTTP/1.1\r\n\r\n", (30, 41), None))
             cs.append(("resp", False, b"HTTP/1.1 200 OK\r\ncontent-length: " + cl + b"\r\n\r\n:0HTTP/1.1 204 N\r\n\r\n", (30,), True, None))
@@ -75,6 +86,14 @@ class C13(core.Check):
             hs = b"".join(b"H%d: v\r\n" % i for i in range(nh))
             cs.append(("req", b"GET / HTTP/1.1\r\n" + hs + b"\r\nGET /2 HTTP/1.1\r\n\r\n", (40, 700), None))
             cs.append(("req", b"POST / HTTP/1.1\r\nTransfer-Encoding: chunked\r\n\r\n0\r\n" + hs + b"\r\n", (60,), None))
+        # every kind of line at / around every size limit, CRLF and LF, with another line of the same block after it
+        for n in hp.boundary_line_sizes():
+            for e in (b"\r\n", b"\n"):
+                hl = b"A: " + b"v" * (n - 3)
+                cs.append(("req", b"GET / HTTP/1.1" + e + hl + e + b"B: 2" + e + e + b"GET /2 HTTP/1.1\r\n\r\n", (20 + n,), None))
+                cs.append(("resp", False, b"HTTP/1.1 200 OK" + e + hl + e + b"Content-Length: 2" + e + e + b"hiHTTP/1.1 204 N\r\n\r\n", (22 + n,), True, None))
+                cs.append(("req", b"POST / HTTP/1.1\r\nTransfer-Encoding: chunked\r\n\r\n0\r\n" + hl + e + b"T: 2" + e + e, (60 + n,), None))
+            cs.append(("req", b"POST / HTTP/1.1\r\nTransfer-Encoding: chunked\r\n\r\n1;" + b"e" * (n - 2) + b"\r\na\r\n0\r\n\r\n", (50 + n,), None))
         # line of exactly MAX_LINE_SIZE bytes ended by CRLF, cut between CR and LF
         big = b"GET /" + b"a" * (65536 - 14) + b" HTTP/1.1\r\n\r\n"
         cs.append(("req", big, (65537,), None))
@@ -92,6 +111,10 @@ class C13(core.Check):
                 cuts = hp.cuts_for(rng, data)
                 if side == "req":
                     yield ("req", data, cuts, None)
+                elif rng.random() < 0.15:        # the same through Client.service, end of stream with or after the last read
+                    yield ("clid", data, cuts if len(cuts) < 40 else cuts[:40], rng.random() < 0.5)
+                elif rng.random() < 0.2 and cuts:
+                    yield ("resp", rng.random() < 0.1, data, cuts, True, "cf")      # close before the parse of the last read
                 else:
                     yield ("resp", rng.random() < 0.1, data, cuts, closed, None)
                 made += 1
@@ -130,6 +153,22 @@ class C13(core.Check):
     def oracle(self, case, obs):
         bad = []
         cut, whole = obs
+        if case[0] == "clid":
+            # Client.service: what is delivered through .responses does not depend on the delivery schedule
+            if cut[0] is not None or whole[0] is not None:
+                bad.append("exception-escaped-client-service")
+            elif cut != whole:
+                bad.append("delivery-schedule-changes-response")
+            return bad
+        if case[0] == "resp" and case[5] == "cf":
+            # the close signalled before the last parse: same result, except that a chunked body that stops exactly after a
+            # non-empty chunk ends as complete instead of as a premature closure (the bytes are the same)
+            a, b = list(cut[0]), list(whole[0])
+            if a and b and a[-1][0] == "ok" and a[-1][9] and b[-1] == ("err", "PrematureClosure") and a[:-1] == b[:-1]:
+                return bad
+            if (cut[0], cut[1][0]) != (whole[0], whole[1][0]):
+                bad.append("close-order-changes-result")
+            return bad
         if cut != whole:
             bad.append("fragmented-differs-from-whole")
         if hp.has_escape(obs):
@@ -138,10 +177,14 @@ class C13(core.Check):
 
     @hp.safe(True)
     def nontrivial(self, case, obs):
+        if case[0] == "clid":
+            return len(case[1]) > 0
         return len(hp.case_cuts(case) or ()) >= 1 and len(obs[0][0]) >= 1
 
     @hp.safe(list)
     def features(self, case, obs):
+        if case[0] == "clid":
+            return ["clid", "clid:eof-same-pass" if case[3] else "clid:eof-next-pass", f"clid:responses:{len(obs[0][1])}"]
         f = [case[0]]
         cuts = hp.case_cuts(case) or ()
         d = hp.case_data(case)
@@ -167,7 +210,7 @@ class C13(core.Check):
         for st in ("ones", "term", "uniform", "two", "tail"):
             c = hp.cuts_for(rng, d, st)
             lst = list(case)
-            lst[2 if case[0] == "req" else 3] = c
+            lst[2 if case[0] in ("req", "clid") else 3] = c
             out.append(tuple(lst))
         return out
 
